@@ -6,5 +6,5 @@ for d in seeded/C*-*/; do
   prop=$(python3 -c "import json;print(json.load(open('$d/meta.json'))['property'])")
   extra=""
   [ "$(basename $d)" = "C01-3" ] && extra="--props C01,C03"
-  python3 tools/mutant.py detect $d $extra 2>&1 | grep "^{" | cut -c1-220
+  python3 tools/mutant.py detect $(pwd)/$d $extra 2>&1 | grep "^{" | cut -c1-220
 done
